@@ -546,7 +546,13 @@ fn pvar_main<S: yash_env::system::GetPid>(
 
 /// The deterministic byte stream of `gen N SEED [K]`: printable bytes, a newline after every K-th
 /// byte if K > 0.
-pub fn gen_stream(n: usize, seed: u64, k: usize) -> Vec<u8> {
+pub fn gen_stream(n: usize, seed: u64, k: usize, trailing: usize) -> Vec<u8> {
+    let mut v = gen_body(n, seed, k);
+    v.extend(std::iter::repeat_n(b'\n', trailing));
+    v
+}
+
+fn gen_body(n: usize, seed: u64, k: usize) -> Vec<u8> {
     (0..n)
         .map(|i| {
             if k > 0 && i % k == k - 1 {
@@ -558,7 +564,7 @@ pub fn gen_stream(n: usize, seed: u64, k: usize) -> Vec<u8> {
         .collect()
 }
 
-/// `gen N SEED [K]` : write the stream to standard output; status 0, or 1 if the write failed.
+/// `gen N SEED [K [T]]` : write the stream (T extra trailing newlines) to standard output; status 0, or 1 if the write failed.
 fn gen_main<S>(
     env: &mut Env<S>,
     args: Vec<Field>,
@@ -570,7 +576,8 @@ where
         let n: usize = args.first().and_then(|f| f.value.parse().ok()).unwrap_or(0);
         let seed: u64 = args.get(1).and_then(|f| f.value.parse().ok()).unwrap_or(0);
         let k: usize = args.get(2).and_then(|f| f.value.parse().ok()).unwrap_or(0);
-        let data = gen_stream(n, seed, k);
+        let t: usize = args.get(3).and_then(|f| f.value.parse().ok()).unwrap_or(0);
+        let data = gen_stream(n, seed, k, t);
         match env.system.write_all(Fd::STDOUT, &data).await {
             Ok(()) => yash_env::builtin::Result::new(ExitStatus::SUCCESS),
             Err(_) => yash_env::builtin::Result::new(ExitStatus::FAILURE),
